@@ -7,6 +7,7 @@ import (
 	"context"
 	"errors"
 	"fmt"
+	"github.com/influxdata/influxdb/pkg/verifhook"
 	"io"
 	"math"
 	"os"
@@ -1958,6 +1959,7 @@ func (e *Engine) WriteSnapshot() (err error) {
 	// it before writing the snapshot.  This can be very expensive so it's done while we are not
 	// holding the engine write lock.
 	dedup := time.Now()
+	verifhook.At("snap.taken", e.path, int64(len(closedFiles)))
 	snapshot.Deduplicate()
 	e.traceLogger.Info("Snapshot for path deduplicated",
 		zap.String("path", e.path),
@@ -2008,6 +2010,7 @@ func (e *Engine) writeSnapshotAndCommit(log *zap.Logger, closedFiles []string, s
 		log.Info("Error writing snapshot from compactor", zap.Error(err))
 		return err
 	}
+	verifhook.At("snap.written", e.path, int64(len(newFiles)))
 
 	e.mu.RLock()
 	defer e.mu.RUnlock()
@@ -2025,6 +2028,7 @@ func (e *Engine) writeSnapshotAndCommit(log *zap.Logger, closedFiles []string, s
 		return err
 	}
 
+	verifhook.At("snap.installed", e.path, int64(len(newFiles)))
 	// clear the snapshot from the in-memory cache, then the old WAL files
 	e.Cache.ClearSnapshot(true)
 
@@ -2033,6 +2037,7 @@ func (e *Engine) writeSnapshotAndCommit(log *zap.Logger, closedFiles []string, s
 			log.Info("Error removing closed WAL segments", zap.Error(err))
 		}
 	}
+	verifhook.At("snap.walremoved", e.path, int64(len(closedFiles)))
 
 	return nil
 }
